@@ -22,6 +22,7 @@ ENTRIES = [(REL, "FSA." + m) for m in (
 
 def run(ctx):
     ctx.do(F.rule_v1)
+    ctx.do(F.rule_dc1)
     ctx.do(F.rule_v2)
     ctx.do(F.rule_b1)
     # N1 only for the construction / edit methods the statement names (the
